@@ -159,6 +159,10 @@ def case_rebalance(ctx, spec):
         sub_value_before = sub.value
         sub_child_values = {cname: ch.value for cname, ch in sub.children.items()}
     s.temp = {"weights": dict(targets)}
+    if not targets:
+        # nothing is wanted: the target vector comes out of the documented chain (an empty selection weighed equally), not from the harness
+        s.temp = {"selected": []}
+        bt.algos.WeighEqually()(s)
     if spec["cash"] is not None:
         s.temp["cash"] = spec["cash"]
     if flow:
